@@ -321,7 +321,10 @@ func (d *scriptedDelivery) AddRcpt(ctx context.Context, rcptTo string, _ smtp.Rc
 }
 
 func (d *scriptedDelivery) record(s *simrt.Sim, header textproto.Header, body buffer.Buffer) {
-	d.tx.BodyCall = true
+	// BodyCall is set once the content was read completely: reading goes
+	// through the simulated disk, where a crash can end this goroutine; a
+	// half-made record must not be compared with the accepted bytes.
+	// (not deferred: Goexit runs deferred calls)
 	d.tx.MetaAtBody = *d.tx.MetaPtr
 	var hb bytes.Buffer
 	textproto.WriteHeader(&hb, header)
@@ -339,6 +342,7 @@ func (d *scriptedDelivery) record(s *simrt.Sim, header textproto.Header, body bu
 			d.tx.Body = b
 		}
 	}
+	d.tx.BodyCall = true
 }
 
 func (d *scriptedDelivery) Body(ctx context.Context, header textproto.Header, body buffer.Buffer) error {
